@@ -15,6 +15,9 @@ pub enum WStep {
     Zero,
     /// hard error with the given kind index (see `hard_kind`)
     Hard(u8),
+    /// accept exactly the first non-empty slice of a vectored write - what `std::io::Write`'s
+    /// default `write_vectored` does for a writer that only implements `write`
+    FirstSlice,
 }
 
 pub fn hard_kind(i: u8) -> io::ErrorKind {
@@ -104,6 +107,10 @@ impl ScriptedWriter {
                 let n = (k.max(1) as usize).min(total);
                 (Ok(n), n)
             }
+            WStep::FirstSlice => {
+                let n = offered.iter().copied().find(|l| *l > 0).unwrap_or(0);
+                (Ok(n), n)
+            }
             WStep::Interrupted => (Err(io::ErrorKind::Interrupted.into()), 0),
             WStep::Zero => (Ok(0), 0),
             WStep::Hard(k) => (Err(io::Error::new(hard_kind(k), "scripted hard error")), 0),
@@ -153,6 +160,7 @@ pub fn arb_wstep() -> impl Strategy<Value = WStep> {
         3 => Just(WStep::Interrupted),
         1 => Just(WStep::Zero),
         1 => (0u8..5).prop_map(WStep::Hard),
+        3 => Just(WStep::FirstSlice),
     ]
 }
 
@@ -162,6 +170,7 @@ pub fn arb_wscript() -> impl Strategy<Value = WScript> {
         prop_oneof![
             4 => Just(WStep::AcceptAll),
             3 => (1u32..64).prop_map(WStep::AcceptK),
+            2 => Just(WStep::FirstSlice),
         ],
         prop::collection::vec(prop::bool::weighted(0.7), 0..4),
     )
